@@ -231,6 +231,48 @@ def check_form_case(case, st):
         st.violation('target-form:block-count:%s' % tag, d)
 
 
+# ---- the other audit modes over a targets file: policy audits (a built-in policy by name, a policy file), policy creation is single-target only
+def mode_cases():
+    out = []
+    for pol in ('builtin', 'file'):
+        for archs in (('CLEAN', 'TERR'), ('REFUSED', 'CLEAN'), ('CLEAN', 'BADBLOCK', 'RSA2048'), ('UNRESOLVABLE',), ('CLOSEAFTERBANNER', 'TERR')):
+            for threads in (1, 2):
+                for fmt in ('text', 'json'):
+                    out.append(('mode', pol, archs, threads, fmt))
+    return out
+
+
+def check_mode_case(case, st):
+    from mc import runner
+    _k, pol, archs, threads, fmt = case
+    if pol == 'builtin':
+        BP = runner.M['builtin_policies'].BUILTIN_POLICIES
+        policy = sorted(n for n in BP if BP[n]['server_policy'])[-1]
+    else:
+        policy = H.tmp_path('c08-policy.txt')
+        with open(policy, 'w') as f:
+            f.write('name = "c08"\nversion = 1\nallow_larger_keys = true\nciphers = aes256-gcm@openssh.com\n')
+    res, s = MT.run_multi(list(archs), threads, fmt, (), ('connect',), policy)
+    st.execution(res.world, outcome=('mode', pol, res.status, fmt), root=case, nontrivial=case)
+    d = {'targets': list(archs), 'policy': pol, 'threads': threads, 'fmt': fmt, 'status': res.status}
+    n = len(archs)
+    if res.hang or res.exc or res.status not in (0, 1, 3):
+        st.violation('policy-mode:%s' % ('hang-or-escaped-exception' if (res.hang or res.exc) else 'exit-status-%s' % res.status), dict(d, hang=res.hang, exc=res.exc, tail=(res.stdout + res.stderr)[-300:]))
+        return
+    if any(a in MT.FAILING for a in archs) and res.status != 1:
+        st.violation('policy-mode:exit-status-%s-with-a-failing-target' % res.status, d)
+    if fmt == 'json':
+        try:
+            doc = json.loads(res.stdout)
+        except ValueError:
+            st.violation('policy-mode:json-not-one-document', dict(d, stdout_tail=res.stdout[-200:]))
+            return
+        if not isinstance(doc, list) or len(doc) != n:
+            st.violation('policy-mode:json-array-length', dict(d, got=len(doc) if isinstance(doc, list) else None))
+    elif len(MT.split_text(res.stdout)) != n:
+        st.violation('policy-mode:block-count', dict(d, got=len(MT.split_text(res.stdout)), stdout_tail=res.stdout[-200:]))
+
+
 # ---- long runs: many slow targets on few workers (each silent target costs one timeout; the run lasts far longer than any single audit)
 def slow_cases():
     out = []
@@ -441,7 +483,9 @@ def check_rate_case(case, st):
 
 def work(chunk, st):
     for case in chunk:
-        if case[0] == 'slow':
+        if case[0] == 'mode':
+            check_mode_case(case, st)
+        elif case[0] == 'slow':
             check_slow_case(case, st)
         elif case[0] == 'rate':
             check_rate_case(case, st)
@@ -499,6 +543,7 @@ def cases(tier):
     out += rate_cases()
     out += samehost_cases()
     out += slow_cases()
+    out += mode_cases()
     return out
 
 
@@ -527,7 +572,7 @@ def run(tier, seed):
         PID, tier, seed, st, t0,
         rule='target lists of length 2 (quick; plus one triple per failure) / 2-3 (thorough) mixing healthy archetypes %s with every failure '
              'archetype %s in every position x threads x {text,-j}; DFS over gate schedules (preemption bound quick 1 / thorough 2); plus '
-             'targets-file syntax failures (out-of-range port, blank/whitespace lines); the same target listed two or three times; every failing archetype written as [v6]:port, [v6], v6, v4:port, v4, name:port next to a healthy target; lists with the connection-rate check switched on around a target it has nothing to measure on; a healthy and a failing service of one host name on two ports; runs of 40-70 silent targets on 1-2 workers (virtual hours); non-trivial = distinct (list, threads, format, completion order)' % (HEALTHY, FAILING),
+             'targets-file syntax failures (out-of-range port, blank/whitespace lines); the same target listed two or three times; every failing archetype written as [v6]:port, [v6], v6, v4:port, v4, name:port next to a healthy target; lists with the connection-rate check switched on around a target it has nothing to measure on; a healthy and a failing service of one host name on two ports; runs of 40-70 silent targets on 1-2 workers (virtual hours); policy audits (built-in policy by name, policy file) over five target lists; non-trivial = distinct (list, threads, format, completion order)' % (HEALTHY, FAILING),
         assumptions=['thread switches only at virtual I/O gates', 'per-target statuses come from fresh single-target runs in the same environment'],
         exhaustive=True, traces_validated=validated, extra={'cases': len(cs)})
 
